@@ -370,6 +370,15 @@ let handle (r : reader) : unit =
       out_s "OK";
       out_s (" " ^ string_of_int (List.length out));
       List.iter (fun (t, s) -> out_ranges t; out_ranges s) out
+  | "STSW" ->
+      (* STSW ds k (ta tb cell)*  -> the streaming (time range, space cell) sweep-line builder without flush
+         (Model/SweepLine.v st_sweep): n (ta tb <space ranges>)* *)
+      let ds = next_n r in
+      let obs = next_list r (fun r -> let a = next_n r in let b = next_n r in let c = next_n r in ((a, b), c)) in
+      let out = st_sweep ds obs in
+      out_s "OK";
+      out_s (" " ^ string_of_int (List.length out));
+      List.iter (fun ((a, b), s) -> out_n a; out_n b; out_ranges s) out
   | "CANON" ->
       let l = next_ranges r in
       out_s "OK";
